@@ -148,9 +148,50 @@ pub fn build_crash_context(cc: &Value, report: &Value, tid: i32) -> (CrashContex
 }
 
 // ------------------------------------------------------------------ writer construction
+pub struct G { pub start: u64, pub end: u64, pub sys_end: u64, pub off: u64, pub name: Option<String>, pub perms: Vec<String>, pub exec: bool, pub privonly: bool }
+/// mapping groups exactly as MapsAggregate (the model validated by C13) forms them
+pub fn mapping_groups(lines: &[crate::maps::Line]) -> Vec<G> {
+    let mut gs: Vec<G> = Vec::new();
+    for l in lines {
+        let is_path = |n: &Option<String>| n.as_deref().map(|s| s.contains('/')).unwrap_or(false);
+        let lname = l.name.as_ref().map(|n| n.strip_suffix(" (deleted)").unwrap_or(n).to_string());
+        let lexec = l.perms.as_bytes().get(2) == Some(&b'x');
+        let lpriv = l.perms == "---p";
+        let n = gs.len();
+        if n >= 1 {
+            let contiguous = l.start == gs[n - 1].end;
+            if contiguous && lname.is_some() && lname == gs[n - 1].name {
+                let g = &mut gs[n - 1];
+                g.end = l.end; g.sys_end = l.end; g.exec |= lexec; g.privonly &= lpriv; g.perms.push(l.perms.clone());
+                continue;
+            } else if contiguous && gs[n - 1].exec && is_path(&gs[n - 1].name) && (l.off == 0 || l.off == gs[n - 1].end) && lpriv {
+                gs[n - 1].end = l.end;
+                continue;
+            }
+        }
+        if n >= 2 {
+            let (pp, p) = (&gs[n - 2], &gs[n - 1]);
+            if is_path(&pp.name) && pp.end == p.start && p.off == 0 && p.privonly && p.name.is_none() && p.end == l.start && lname == pp.name {
+                gs.pop();
+                let g = gs.last_mut().unwrap();
+                g.end = l.end; g.sys_end = l.end; g.exec |= lexec; g.privonly &= lpriv; g.perms.push(l.perms.clone());
+                continue;
+            }
+        }
+        gs.push(G { start: l.start, end: l.end, sys_end: l.end, off: l.off, name: lname, perms: vec![l.perms.clone()], exec: lexec, privonly: lpriv });
+    }
+    gs
+}
+
 fn user_mapping(u: &Value, report: &Value) -> MappingEntry {
     let start = resolve(&u["start"], report) as usize;
-    let size = u["size"].as_u64().unwrap_or(4096) as usize;
+    // "size": "group" = exactly the merged extent of the mapping group of the target that starts at `start`
+    let size = if u["size"].as_str() == Some("group") {
+        let text = std::fs::read_to_string(format!("/proc/{}/maps", report["pid"].as_i64().unwrap_or(0))).unwrap_or_default();
+        mapping_groups(&crate::maps::parse_text(&text)).iter().find(|g| g.start as usize == start).map(|g| (g.end - g.start) as usize).unwrap_or(4096)
+    } else {
+        u["size"].as_u64().unwrap_or(4096) as usize
+    };
     let id: Vec<u8> = u["id_hex"].as_str().map(|s| (0..s.len() / 2).map(|i| u8::from_str_radix(&s[2 * i..2 * i + 2], 16).unwrap_or(0)).collect()).unwrap_or_default();
     MappingEntry {
         mapping: MappingInfo {
@@ -477,37 +518,7 @@ fn collect_oracles(report: &Value, pid: i32, blamed: i32, p: &mdparse::Parsed, i
     if want_modules {
         let text = o["maps"].as_str().unwrap_or("").to_string();
         let lines = crate::maps::parse_text(&text);
-        // mapping groups exactly as MapsAggregate (the model validated by C13) forms them
-        struct G { start: u64, end: u64, sys_end: u64, off: u64, name: Option<String>, perms: Vec<String>, exec: bool, privonly: bool }
-        let mut gs: Vec<G> = Vec::new();
-        for l in &lines {
-            let is_path = |n: &Option<String>| n.as_deref().map(|s| s.contains('/')).unwrap_or(false);
-            let lname = l.name.as_ref().map(|n| n.strip_suffix(" (deleted)").unwrap_or(n).to_string());
-            let lexec = l.perms.as_bytes().get(2) == Some(&b'x');
-            let lpriv = l.perms == "---p";
-            let n = gs.len();
-            if n >= 1 {
-                let contiguous = l.start == gs[n - 1].end;
-                if contiguous && lname.is_some() && lname == gs[n - 1].name {
-                    let g = &mut gs[n - 1];
-                    g.end = l.end; g.sys_end = l.end; g.exec |= lexec; g.privonly &= lpriv; g.perms.push(l.perms.clone());
-                    continue;
-                } else if contiguous && gs[n - 1].exec && is_path(&gs[n - 1].name) && (l.off == 0 || l.off == gs[n - 1].end) && lpriv {
-                    gs[n - 1].end = l.end;
-                    continue;
-                }
-            }
-            if n >= 2 {
-                let (pp, p) = (&gs[n - 2], &gs[n - 1]);
-                if is_path(&pp.name) && pp.end == p.start && p.off == 0 && p.privonly && p.name.is_none() && p.end == l.start && lname == pp.name {
-                    gs.pop();
-                    let g = gs.last_mut().unwrap();
-                    g.end = l.end; g.sys_end = l.end; g.exec |= lexec; g.privonly &= lpriv; g.perms.push(l.perms.clone());
-                    continue;
-                }
-            }
-            gs.push(G { start: l.start, end: l.end, sys_end: l.end, off: l.off, name: lname, perms: vec![l.perms.clone()], exec: lexec, privonly: lpriv });
-        }
+        let gs = mapping_groups(&lines);
         for g in &gs {
             if let Some(name) = &g.name {
                 let path = name.clone();
